@@ -32,6 +32,8 @@ fn main() {
         "query" => drivers::query::run(&args),
         "auth" => drivers::auth::run(&args),
         "lookup" => drivers::lookup::run(&args),
+        "join" => drivers::join::run(&args),
+        "putget" => drivers::putget::run(&args),
         "idmath-one" => drivers::idmath::run_one(&args),
         other => {
             eprintln!("unknown driver {other}");
